@@ -776,13 +776,17 @@ impl Parser {
     }
 
     fn parse_function(&mut self, function: Function) -> Result<Expr, String> {
-        let is_boolean_function = function.is_boolean_function();
+        let may_omit_parentheses =
+            function.is_boolean_function() || function.is_argumentless_function();
         let mut function_expr = Expr::function(function);
 
         let mut curly_mode = false;
         if let Some(lexem) = self.next_lexem() {
             if lexem != Lexem::Open && lexem != Lexem::CurlyOpen {
-                if is_boolean_function {
+                // the lexem belongs to whatever follows the function name
+                self.drop_lexem();
+
+                if may_omit_parentheses {
                     return Ok(function_expr);
                 }
 
